@@ -68,6 +68,7 @@ Inductive fatal :=
 | FMalformed            (* MalformedURLException (standard-URI-conformant) *)
 | FExtRefInAtt          (* XMLErrs::NoExtRefsInAttValue *)
 | FEntNotFound          (* XMLErrs::EntityNotFound (fatal when fStandalone || fHasNoDTD) *)
+| FCantHaveIntSS        (* XMLExcepts::Val_CantHaveIntSS: cached DTD grammar and an internal subset *)
 | FFuel.                (* model fuel exhausted: proved unreachable *)
 
 Inductive event :=
@@ -230,9 +231,17 @@ Fixpoint content (d : nat) (c : cfg) (rs : option resolver) (fs : filesys) (nd :
 (** * DTDScanner: declarations, expandPERef, scanEntityRef (attribute default values) *)
 Definition rec_att := str -> option str -> list str -> list piece -> st -> st.
 
+(** a reader pushed by the DTD scanner.  Upstream the DTD scanner never touches the expansion counter (finding
+    C19-F1, [c_countDtd c = false]); with the repair it counts like the document scanners do. *)
+Definition push_dtd (c : cfg) (n : str) (s : st) : st :=
+  if c_countDtd c then
+    let s2 := incr (emit [EvPushDtd n] s) in
+    if over_limit c s2 then halt FLimit s2 else s2
+  else emit [EvPushDtd n] s.
+
 (** DTDScanner::scanEntityRef: general entity reference inside an attribute default value.
     No expansion counter here (faithful). *)
-Definition dtd_att_ref (rec : rec_att) (nd : bool) (ext : str) (cur : option str) (stack : list str) (n : str) (s : st) : st :=
+Definition dtd_att_ref (rec : rec_att) (c : cfg) (nd : bool) (ext : str) (cur : option str) (stack : list str) (n : str) (s : st) : st :=
   match lookup n (s_ge s) with
   | None => if nd then halt FEntNotFound s else s
   | Some g =>
@@ -240,11 +249,11 @@ Definition dtd_att_ref (rec : rec_att) (nd : bool) (ext : str) (cur : option str
     | EExt _ _ => halt FExtRefInAtt s
     | EInt v =>
       if negb (push_ok n stack) then halt FRecursive s
-      else rec ext (Some n) (push_stack cur stack) v (emit [EvPushDtd n] s)
+      else rec ext (Some n) (push_stack cur stack) v (push_dtd c n s)
     end
   end.
 
-Fixpoint dtd_att (d : nat) (nd : bool) (ext : str) (cur : option str) (stack : list str) (ps : list piece) (s : st) {struct d} : st :=
+Fixpoint dtd_att (d : nat) (c : cfg) (nd : bool) (ext : str) (cur : option str) (stack : list str) (ps : list piece) (s : st) {struct d} : st :=
   match d with
   | O => if s_halt s then s else halt FFuel s
   | S d' =>
@@ -252,7 +261,7 @@ Fixpoint dtd_att (d : nat) (nd : bool) (ext : str) (cur : option str) (stack : l
        match ps with
        | [] => s
        | PTxt :: r => go r s
-       | PRef n :: r => go r (if s_halt s then s else dtd_att_ref (dtd_att d' nd) nd ext cur stack n s)
+       | PRef n :: r => go r (if s_halt s then s else dtd_att_ref (dtd_att d' c nd) c nd ext cur stack n s)
        end) ps s
   end.
 
@@ -289,7 +298,7 @@ Definition dtd_item (rec : rec_dtd) (datt : rec_att) (c : cfg) (rs : option reso
         | CrOk id ct =>
           if negb (push_ok n stack) then halt FRecursive s1
           else
-            let s2 := emit [EvPushDtd n] s1 in
+            let s2 := push_dtd c n s1 in
             match ct with
             | Some (CDtd items) => rec id (Some n) (push_stack cur stack) items s2
             | _ => s2
@@ -297,7 +306,7 @@ Definition dtd_item (rec : rec_dtd) (datt : rec_att) (c : cfg) (rs : option reso
         end
       | PInt v =>
         if negb (push_ok n stack) then halt FRecursive s
-        else rec ext (Some n) (push_stack cur stack) (map ditem_of_sitem v) (emit [EvPushDtd n] s)
+        else rec ext (Some n) (push_stack cur stack) (map ditem_of_sitem v) (push_dtd c n s)
       end
     end
   end.
@@ -312,7 +321,7 @@ Fixpoint dtd_items (d : nat) (c : cfg) (rs : option resolver) (fs : filesys) (nd
        | [] => s
        | it :: r =>
          go r (if s_halt s then s
-               else dtd_item (dtd_items d' c rs fs nd) (dtd_att d' nd) c rs fs ext cur stack it s)
+               else dtd_item (dtd_items d' c rs fs nd) (dtd_att d' c nd) c rs fs ext cur stack it s)
        end) items s
   end.
 
@@ -528,10 +537,10 @@ Inductive hop :=
 
 Definition with_limit (c : cfg) (l : option nat) : cfg :=
   {| c_scanner := c_scanner c; c_val := c_val c; c_doSchema := c_doSchema c; c_loadSchema := c_loadSchema c;
-     c_loadDTD := c_loadDTD c; c_disableDefault := c_disableDefault c; c_stdUri := c_stdUri c; c_limit := l |}.
+     c_loadDTD := c_loadDTD c; c_disableDefault := c_disableDefault c; c_stdUri := c_stdUri c; c_limit := l; c_countDtd := c_countDtd c |}.
 Definition with_scanner (c : cfg) (sc : scanner) : cfg :=
   {| c_scanner := sc; c_val := c_val c; c_doSchema := c_doSchema c; c_loadSchema := c_loadSchema c;
-     c_loadDTD := c_loadDTD c; c_disableDefault := c_disableDefault c; c_stdUri := c_stdUri c; c_limit := c_limit c |}.
+     c_loadDTD := c_loadDTD c; c_disableDefault := c_disableDefault c; c_stdUri := c_stdUri c; c_limit := c_limit c; c_countDtd := c_countDtd c |}.
 
 Definition st_from (cnt : nat) : st :=
   {| s_tr := []; s_ge := []; s_pe := []; s_cnt := cnt; s_halt := false; s_ns := []; s_seen := [] |}.
@@ -592,4 +601,123 @@ Fixpoint hist_spec (c : cfg) (rs : option resolver) (fs : filesys) (inst : bool)
   | HSetLimit l :: r => hist_spec c rs fs inst l r
   | HUseScanner sc :: r => hist_spec (with_scanner c sc) rs fs inst mgr r
   | HParse x :: r => run (with_limit c (if inst then Some mgr else None)) rs fs x :: hist_spec c rs fs inst mgr r
+  end.
+
+(* ------------------------------------------------------------------------------------------ *)
+(** * useCachedGrammarInParse: {IG,DG}XMLScanner::scanDocTypeDecl looks the external subset up in the grammar pool
+    first (only when the DOCTYPE has no internal subset).  [resolveSystemId] asks the resolver, honours the
+    disable flag and BUILDS the default source without opening it; a pool hit ends the DOCTYPE without any fetch;
+    otherwise the already resolved source is opened under the same gate [fLoadExternalDTD || fValidate]. *)
+Definition tables := (list (str * gdecl) * list (str * pdecl))%type.
+Definition pool := list (str * tables).     (* cached DTD grammars, keyed by the system id they were loaded from *)
+
+Definition dtd_source (c : cfg) (rs : option resolver) (base sys pub : str) : list event * ssrc :=
+  let ev1 := match rs with Some _ => [EvResolve KDtd sys base pub] | None => [] end in
+  match (match rs with Some f => f sys base pub | None => None end) with
+  | Some (id, ct) => (ev1 ++ [EvUse KDtd id], SsRes id ct)
+  | None =>
+    if c_disableDefault c then (ev1, SsNone)
+    else match default_source (c_stdUri c) base sys with
+         | None => (ev1, SsThrow)
+         | Some d => (ev1, SsDef d)
+         end
+  end.
+
+Definition set_tables (tb : tables) (s : st) : st :=
+  {| s_tr := s_tr s; s_ge := fst tb; s_pe := snd tb; s_cnt := s_cnt s; s_halt := s_halt s; s_ns := s_ns s;
+     s_seen := s_seen s |}.
+
+(** createReader(srcUsed, ...): open the source that resolveSystemId built *)
+Definition open_resolved (fs : filesys) (x : ssrc) : list event * cr_result :=
+  match x with
+  | SsRes id ct => ([], CrOk id (Some ct))
+  | SsDef d =>
+    ([EvOpen KDtd (ds_open d) (ds_sysid d)],
+     match ds_open d with
+     | TFile p => match fs p with Some ct => CrOk (ds_sysid d) (Some ct) | None => CrNone end
+     | TNet u => match fs u with Some ct => CrOk (ds_sysid d) (Some ct) | None => CrThrow FNet end
+     end)
+  | _ => ([], CrNone)
+  end.
+
+Definition scan_doctype_c (d : nat) (c : cfg) (rs : option resolver) (fs : filesys) (nd : bool) (docsys : str)
+  (dt : doctype) (uc : option pool) (s : st) : st :=
+  match uc, dt_int dt, dt_ext dt with
+  | Some pl, None, Some (pub, sys) =>                    (* fUseCachedGrammar && !hasIntSubset *)
+    if negb (dtd_scanner c) then s
+    else
+      let '(ev, src) := dtd_source c rs docsys sys pub in
+      let s1 := emit ev s in
+      match src with
+      | SsThrow => halt FMalformed s1
+      | SsNone => scan_doctype d c rs fs nd docsys dt s1  (* srcUsed == 0: the ordinary path (asks again) *)
+      | _ =>
+        match lookup (ssrc_id src) pl with
+        | Some tb => set_tables tb s1                     (* grammar found in the pool: nothing is fetched *)
+        | None =>
+          if c_loadDTD c || validating c dt then
+            let '(ev2, r) := open_resolved fs src in
+            let s2 := emit ev2 s1 in
+            match r with
+            | CrThrow f => halt f s2
+            | CrNone => halt FOpenFailed s2
+            | CrOk id ct =>
+              match ct with
+              | Some (CDtd items) => dtd_items d c rs fs nd id (Some [68; 84; 68]) [] items s2
+              | _ => s2
+              end
+            end
+          else s1
+        end
+      end
+  | Some pl, Some _, Some (pub, sys) =>                  (* checkInternalDTD: fUseCachedGrammar && hasExtSubset *)
+    if negb (dtd_scanner c) then s
+    else
+      let '(ev, src) := dtd_source c rs docsys sys pub in
+      let s1 := emit ev s in
+      match src with
+      | SsThrow => halt FMalformed s1
+      | SsNone => scan_doctype d c rs fs nd docsys dt s1
+      | _ => match lookup (ssrc_id src) pl with
+             | Some _ => halt FCantHaveIntSS s1             (* the DTD is cached: an internal subset is refused *)
+             | None => scan_doctype d c rs fs nd docsys dt s1
+             end
+      end
+  | _, _, _ => scan_doctype d c rs fs nd docsys dt s
+  end.
+
+Definition run_fuel_c (d : nat) (c : cfg) (rs : option resolver) (fs : filesys) (uc : option pool) (x : doc) : st :=
+  let nd := no_dtd x in
+  let s1 := match d_doctype x with
+            | Some dt => scan_doctype_c d c rs fs nd (d_sys x) dt uc st0
+            | None => st0
+            end in
+  let s2 := scan_atts d c rs fs nd (d_sys x) (d_atts x) s1 in
+  let s3 := if schema_scanner c then scan_hints d c rs fs (d_sys x) (d_hints x) s2 else s2 in
+  content d c rs fs nd false (d_sys x) None [] (d_body x) s3.
+Definition run_c (c : cfg) (rs : option resolver) (fs : filesys) (uc : option pool) (x : doc) : st :=
+  run_fuel_c default_fuel c rs fs uc x.
+
+(** the pool a previous parse with cacheGrammarFromParse leaves behind: the grammar is stored under the system
+    id of the source the external subset was read from *)
+Definition pool_of (s : st) : pool :=
+  match filter (fun e => match e with EvUse KDtd _ | EvOpen KDtd _ _ => true | _ => false end) (trace s) with
+  | EvUse _ id :: _ => [(id, (s_ge s, s_pe s))]
+  | EvOpen _ _ id :: _ => [(id, (s_ge s, s_pe s))]
+  | _ => []
+  end.
+
+(** a priming parse with cacheGrammarFromParse (which implies useCachedGrammarInParse) and loadExternalDTD:
+    checkInternalDTD refuses an internal subset outright (Val_CantHaveIntSS), so nothing is cached then *)
+Definition primed_pool (c : cfg) (rs : option resolver) (fs : filesys) (x : doc) : pool :=
+  match d_doctype x with
+  | Some dt =>
+    match dt_int dt with
+    | Some _ => []
+    | None =>
+      pool_of (run_c {| c_scanner := c_scanner c; c_val := c_val c; c_doSchema := c_doSchema c;
+                        c_loadSchema := c_loadSchema c; c_loadDTD := true; c_disableDefault := c_disableDefault c;
+                        c_stdUri := c_stdUri c; c_limit := c_limit c; c_countDtd := c_countDtd c |} rs fs (Some []) x)
+    end
+  | None => []
   end.
